@@ -241,6 +241,13 @@ def run_upload_case(case, tmpdir):
         with open(path, 'wb') as fh:
             fh.write(data)
         src = path
+        if case.get('symlink'):
+            # the user's path is a symbolic link to the file: the source is the file it points to
+            link = os.path.join(tmpdir, 'a-rather-long-link-name-to-the-source')
+            if os.path.lexists(link):
+                os.remove(link)
+            os.symlink(path, link)
+            src = link
     elif kind == 'seek':
         k = case.get('pos', 0)
         if case.get('duck'):
@@ -417,18 +424,20 @@ def upload_cases(ctx, with_retries):
             for size in sizes:
                 if size < 0:
                     continue
-                for kind in ('path', 'seek', 'seekpos', 'stream', 'stream-short', 'stream-rand', 'seek-short',
+                for kind in ('path', 'path-symlink', 'seek', 'seekpos', 'stream', 'stream-short', 'stream-rand', 'seek-short',
                              'duckseek', 'duckseekpos', 'duckseek-short', 'duck-raise', 'duck-bare'):
                     n += 1
-                    if kind.startswith('duck') and not ctx.thorough() and (n // 12) % 2:
+                    if kind.startswith('duck') and not ctx.thorough() and (n // 13) % 2:
                         continue
-                    if with_retries and not ctx.thorough() and (n // 12 + n) % 4 != 0:
+                    if with_retries and not ctx.thorough() and (n // 13 + n) % 4 != 0:
                         continue
                     limits = [(1, 1000, 1000), (2, 9, 4), (1, 5, 3)][n % 3]
                     case = {'size': size, 'chunk': c, 'thr': t, 'limits': list(limits), 'alg': n % 4 == 0,
                             'salt': n % 5}
                     if kind == 'path':
                         case['kind'] = 'path'
+                    elif kind == 'path-symlink':
+                        case.update(kind='path', symlink=True)
                     elif kind == 'seek':
                         case.update(kind='seek', pos=0)
                     elif kind == 'seekpos':
